@@ -101,7 +101,7 @@ def model_case(draw):
                      'type': draw(st.sampled_from(['MASS', 'MASS', 'HEAT', 'COM1', 'DELV'])),
                      'gx': draw(st.sampled_from([0.0, 1.5, -2.25, 1e-3, 37.5, 1.2e6])),
                      'ex': draw(st.sampled_from([0.0, 1.0e6, 83.9e3])),
-                     'ntab': ntab, 'enth': draw(st.booleans())})
+                     'ntab': ntab, 'enth': draw(st.booleans()), 'namecol': draw(st.sampled_from([0, 0, 0, 1, 7]))})
     return {'k': 'model', 'rc': rc, 'gens': gens, 'preserve': draw(st.booleans()), 'rename': draw(st.booleans()),
             'lists': draw(st.sampled_from(['both', 'both', 'top', 'bottom', 'none']))}
 
@@ -300,6 +300,10 @@ def run_pair(case, R):
         b = t2incons.t2blockincon(v, n)
         if i % 3 == 1: b.porosity = 0.01 + 0.001 * (i % 50)
         inc[n] = b
+        # the documented setters leave numpy arrays behind (inc.variable = 2-D array; inc[blk].variable = array):
+        # the other legal container for the same states
+        if case['nvar'] % 2 == 0: inc[n].variable = np.array(v, dtype=float)
+    R.label('incon:variables-as-' + ('arrays' if case['nvar'] % 2 == 0 else 'lists'))
     before = incon_snapshot(inc)
     new = t2incons.t2incon()
     use_map = mapping
@@ -395,11 +399,14 @@ def run_model(case, R):
         if not own: continue
         lay = own[0] if s['where'] == 'top' else own[-1] if s['where'] == 'bottom' else own[s['lay'] % len(own)]
         block = g.block_name(lay.name, col.name)
-        name = g.block_name(cats[s['where']], col.name)
-        if g.layer_name(name) != cats[s['where']] or g.column_name(name) != col.name or block not in src.grid.block:
+        # the name usually carries the generator's own column, but nothing requires that (the simulator only uses the block)
+        ncol = g.columnlist[(s['col'] + s.get('namecol', 0)) % g.num_columns]
+        if ncol is not col: R.label('generator:named-after-another-column')
+        name = g.block_name(cats[s['where']], ncol.name)
+        if g.layer_name(name) != cats[s['where']] or g.column_name(name) != ncol.name or block not in src.grid.block:
             R.label('generator:name-not-decomposable-skipped'); continue
-        if (block, name) in seen: continue
-        seen.add((block, name))
+        if (block, cats[s['where']]) in seen: continue        # (names rebuilt from the block's column must stay distinct)
+        seen.add((block, cats[s['where']]))
         kw = dict(name=name, block=block, type=s['type'], gx=s['gx'], ex=s['ex'])
         if s['ntab']:
             nt = s['ntab']
@@ -422,7 +429,13 @@ def run_model(case, R):
     if R.check(len(after) == len(before), 'model:generator-count', 'generators %d expected %d: %r' % (
             len(after), len(before), [(a[0], a[1]) for a in after][:6])):
         da = dict(((a[0], a[1]), a) for a in after)
+        colgen = set(top + bot)
         for b in before:
+            # documented naming: column (top / bottom) generators, and all generators when renaming is asked for, are
+            # named after the column of their (new) block; the others keep their names
+            cat = g.layer_name(b[1])
+            if cat in colgen or case['rename']:
+                b = (b[0], g2.block_name(cat, g2.column_name(b[0]))) + tuple(b[2:])
             a = da.get((b[0], b[1]))
             if not R.check(a is not None, 'model:generator-missing', lambda: 'generator %r in block %r is not in the transferred model, which has %r' % (
                     b[1], b[0], sorted(da)[:6])): break
